@@ -582,6 +582,9 @@ func (g *vcgen) havocAll() {
 
 // havocEvent forgets the ghost record of one event across a call that may emit it
 func (g *vcgen) havocEvent(ev string) {
+	if g.havockedEvents != nil {
+		g.havockedEvents[ev] = true
+	}
 	g.eventVars(ev)
 	cntBefore := g.get(g.st, "G.cnt."+ev)
 	g.havocNamed("G.first." + ev) // uses the counter and the clock as they are before the call
@@ -1209,6 +1212,9 @@ func (g *vcgen) applyContract(fc *FuncContract, fn *ssa.Function, sig *types.Sig
 	// frame: what the callee may modify must be allowed by the caller's own modifies clause
 	endCall := g.beginCall()
 	defer endCall()
+	savedHE := g.havockedEvents
+	g.havockedEvents = map[string]bool{}
+	defer func() { g.havockedEvents = savedHE }()
 	if fn == nil {
 		g.eng.pkgHint = fc.Pkg
 		defer func() { g.eng.pkgHint = "" }()
@@ -1254,6 +1260,9 @@ func (g *vcgen) applyContract(fc *FuncContract, fn *ssa.Function, sig *types.Sig
 	}
 	results := g.freshResults(sig)
 	envPost := g.contractEnv(fc, fn, sig, args, binds, results, g.st, pre)
+	if len(fc.Ensures) > 0 {
+		g.cover("before:"+site, "true")
+	}
 	for _, e := range fc.Ensures {
 		t, err := envPost.EvalBool(e.Expr)
 		if err != nil {
@@ -1264,6 +1273,11 @@ func (g *vcgen) applyContract(fc *FuncContract, fn *ssa.Function, sig *types.Sig
 			continue
 		}
 		g.assume(t)
+	}
+	if len(fc.Ensures) > 0 {
+		// the assumed postconditions must not contradict what is known here: otherwise everything after this call
+		// would hold vacuously (reported as UNDECIDED when a solver proves the contradiction)
+		g.cover("after:"+site, "true")
 	}
 	if fc.Assumed {
 		g.noteAssumption("assumed contract: " + calleeName)
@@ -1876,8 +1890,10 @@ func (g *vcgen) goStmt(x *ssa.Go) {
 	if fn == nil {
 		return
 	}
-	// starting a goroutine is an observable step of the spawner: a "call" event of the started function
+	// starting a goroutine is an observable step of the spawner: a "go" event of the started function
+	g.eng.wantSpawn = true
 	g.emitEvents(c, args, nil, false)
+	g.eng.wantSpawn = false
 	if fc := g.eng.ContractOf(fn); fc != nil {
 		env := g.contractEnv(fc, fn, fn.Signature, args, binds, nil, g.st, nil)
 		site := g.callSite("go " + shortName(FullName(fn)))
@@ -1996,7 +2012,7 @@ func (e *Engine) eventsFor(c *ssa.CallCommon) []*EventDecl {
 	sort.Strings(names)
 	for _, n := range names {
 		ev := e.DB.Events[n]
-		if ev.Chan != "" {
+		if ev.Chan != "" || ev.Spawn != e.wantSpawn {
 			continue
 		}
 		if ev.Callee == name || strings.HasSuffix(name, "."+ev.Callee) || strings.HasSuffix(name, "/"+ev.Callee) {
@@ -2004,6 +2020,25 @@ func (e *Engine) eventsFor(c *ssa.CallCommon) []*EventDecl {
 		}
 	}
 	return out
+}
+
+// spawnEventsFor: the "go" events declared for the function a go statement starts
+func (e *Engine) spawnEventsFor(c *ssa.CallCommon) []*EventDecl {
+	e.wantSpawn = true
+	defer func() { e.wantSpawn = false }()
+	return e.eventsFor(c)
+}
+
+func valueFunc(v ssa.Value) *ssa.Function {
+	switch x := v.(type) {
+	case ssa.Instruction:
+		return x.Parent()
+	case *ssa.Parameter:
+		return x.Parent()
+	case *ssa.FreeVar:
+		return x.Parent()
+	}
+	return nil
 }
 
 // chanFieldKey: the struct field a channel value was loaded from ("pkgpath.Type.field"), or ""
@@ -2040,6 +2075,20 @@ func chanFieldKey(ch ssa.Value) string {
 func (e *Engine) chanEventsFor(kind string, ch ssa.Value) []*EventDecl {
 	key := chanFieldKey(ch)
 	if key == "" {
+		// a channel held in a local (possibly captured) variable: "local:<function>.<variable>"
+		fn := valueFunc(ch)
+		if fn != nil {
+			g := &vcgen{fn: fn}
+			if n := g.sourceNameOf(ch); n != "" {
+				root := fn
+				for root.Parent() != nil {
+					root = root.Parent()
+				}
+				key = "local:" + FullName(root) + "." + n
+			}
+		}
+	}
+	if key == "" {
 		return nil
 	}
 	var names []string
@@ -2050,7 +2099,7 @@ func (e *Engine) chanEventsFor(kind string, ch ssa.Value) []*EventDecl {
 	var out []*EventDecl
 	for _, n := range names {
 		ev := e.DB.Events[n]
-		if ev.Chan == kind && (ev.Callee == key || strings.HasSuffix(key, "."+ev.Callee) || strings.HasSuffix(key, "/"+ev.Callee) || (strings.HasPrefix(ev.Callee, "call:") && strings.HasPrefix(key, "call:") && (strings.HasSuffix(key, "/"+ev.Callee[5:]) || key[5:] == ev.Callee[5:]))) {
+		if ev.Chan == kind && (ev.Callee == key || strings.HasSuffix(key, "."+ev.Callee) || strings.HasSuffix(key, "/"+ev.Callee) || (strings.HasPrefix(ev.Callee, "call:") && strings.HasPrefix(key, "call:") && (strings.HasSuffix(key, "/"+ev.Callee[5:]) || key[5:] == ev.Callee[5:])) || (strings.HasPrefix(ev.Callee, "local:") && strings.HasPrefix(key, "local:") && (strings.HasSuffix(key, "/"+ev.Callee[6:]) || key[6:] == ev.Callee[6:]))) {
 			out = append(out, ev)
 		}
 	}
@@ -2105,7 +2154,11 @@ func (e *Engine) eventSig(name string) *eventSig {
 						continue
 					}
 					c := ci.Common()
-					for _, ev := range e.eventsFor(c) {
+					evs := e.eventsFor(c)
+					if _, isGo := ins.(*ssa.Go); isGo {
+						evs = e.spawnEventsFor(c)
+					}
+					for _, ev := range evs {
 						if _, done := e.eventSigs[ev.Name]; done {
 							continue
 						}
@@ -2247,7 +2300,11 @@ func (g *vcgen) declareEventVars() {
 				continue
 			}
 			c := ci.Common()
-			for _, ev := range g.eng.eventsFor(c) {
+			evs := g.eng.eventsFor(c)
+			if _, isGo := ins.(*ssa.Go); isGo {
+				evs = g.eng.spawnEventsFor(c)
+			}
+			for _, ev := range evs {
 				g.eventVars(ev.Name)
 				if ev.Ret {
 					if c.Signature().Results().Len() > 0 {
